@@ -122,6 +122,12 @@ def run(ctx):
     known = set(k.get("key") for k in lib.load_known() if k.get("property") == ctx.pid)
     unlisted = [v for v in ctx.violations if v.get("key") not in known]
     other = [v for v in unlisted if v.get("key") not in TAIL_KEYS]
+    if other and (drift or uncovered):
+        # violations outside the declared deviation are reported (exit 1) even when the known deviation is no longer
+        # reproduced; the disagreement between code-faithful model and code is recorded as a note
+        ctx.notes.append("model/code drift while other violations were found: drift=%s uncovered=%s (the code-faithful model with "
+                         "HeaderTailUnbound predicts acceptance that the code did not show)" % (drift, uncovered[:5]))
+        ctx.log("note: model/code drift %s - reported as note because other violations were found" % drift)
     if not other:
         # nothing but the declared deviation: the model must then agree with the code instance by instance
         if uncovered:
